@@ -257,3 +257,8 @@ func StrSwitch(s string) int {
 	}
 	return 0
 }
+
+// struct literals (missing fields are zero), method call on a literal
+func MkPt(a int, on bool) *Pt { return &Pt{X: a, On: on, Tag: 3} }
+
+func UsePt(a, f int) int { return MkPt(a, a > 0).Scaled(f) + Pt{Y: 2}.Sum() }
